@@ -118,6 +118,33 @@ Theorem C17_first_attempt_throttled :
 Proof. repeat split; reflexivity. Qed.
 Print Assumptions C17_first_attempt_throttled.
 
+(** "per CA and account", "any number of concurrent waiters": the keyed limiter map.  For every
+    interleaving of any number of throttle calls, all callers of one key are handed the same
+    limiter — so the bounds above apply to all first attempts for one CA + account together —
+    given that look-up and insertion are one critical section of rateLimitersMu, which the
+    translator re-reads from acmeClient.throttle on every run. *)
+Theorem C17_one_limiter_per_key : forall ls s evs, krun kstep_atomic kinit ls = Some (s, evs) ->
+  forall k l1 l2, In (k, l1) evs -> In (k, l2) evs -> l1 = l2.
+Proof. exact one_limiter_per_key. Qed.
+Print Assumptions C17_one_limiter_per_key.
+
+Theorem C17_every_throttle_gets_a_limiter : forall ls s, (forall l, In l ls -> exists t k, l = KThrottle t k) ->
+  exists s' evs, krun kstep_atomic s ls = Some (s', evs) /\ length evs = length ls.
+Proof. exact every_throttle_gets_a_limiter. Qed.
+Print Assumptions C17_every_throttle_gets_a_limiter.
+
+Theorem C17_throttle_lookup_insert_is_one_critical_section :
+  throttle_lookup_insert_one_critical_section = true.
+Proof. reflexivity. Qed.
+Print Assumptions C17_throttle_lookup_insert_is_one_critical_section.
+
+(** what a split section would allow: two callers that both miss create a limiter each *)
+Theorem C17_split_lookup_insert_two_limiters_refuted :
+  exists ls s evs k l1 l2, krun kstep_split kinit ls = Some (s, evs) /\
+    In (k, l1) evs /\ In (k, l2) evs /\ l1 <> l2.
+Proof. exact split_lookup_insert_two_limiters_refuted. Qed.
+Print Assumptions C17_split_lookup_insert_two_limiters_refuted.
+
 (** the default limits are a valid configuration for the first theorem *)
 Theorem C17_default_limits_valid : 0 < rate_limit_events /\ 0 < rate_limit_events_window.
 Proof. split; reflexivity. Qed.
@@ -130,6 +157,10 @@ Example C17_example_run :
   stable ls = true /\ handovers ls = [1010; 1012; 1111] /\
   exists s', run (init 2 100 1000) ls = Some s'.
 Proof. cbn. repeat split. eexists. vm_compute. reflexivity. Qed.
+Example C17_keyed_example : exists s,
+  krun kstep_atomic kinit [KThrottle 1 [97%N]; KThrottle 2 [98%N]; KThrottle 3 [97%N]] =
+    Some (s, [([97%N], 0%nat); ([98%N], 1%nat); ([97%N], 0%nat)]).
+Proof. eexists. vm_compute. reflexivity. Qed.
 Example C17_zero_window_hyps : stamps_le (init 3 0 7) /\ ph (init 3 0 7) = Computing.
 Proof. split; [apply init_stamps_le; lia|reflexivity]. Qed.
 (** hypotheses of C17_spacing_after_last_change: a history with reconfigurations in the
